@@ -325,7 +325,7 @@ func c05GSLB(r *vk.Run, races *bal_slb.C05Races, idx *int) {
 				if !r.Case(id) {
 					return
 				}
-				oc := bal_slb.C05Judge(r, class, id, out, calls, races, func(tr string, h int) (o2 vsched.Outcome, c2 []*bal_slb.C05Call) {
+				oc := bal_slb.C05Judge(r, class, id, out, calls, races, func(tr string, h int) (o2 vsched.Outcome, c2 []*bal_slb.C05Call, diag string) {
 					bal_slb.C05Replay1(tr, func(ch2 *vk.Chooser) { o2, c2, _ = c05gRun(s, ch2, h) })
 					return
 				})
